@@ -1601,7 +1601,7 @@ ppl_new_Grid_Generator(ppl_Grid_Generator_t* pg,
     ppg = new Grid_Generator(Grid_Generator::grid_line(lle));
     break;
   case PPL_GRID_GENERATOR_TYPE_PARAMETER:
-    ppg = new Grid_Generator(Grid_Generator::parameter(lle));
+    ppg = new Grid_Generator(Grid_Generator::parameter(lle, dd));
     break;
   case PPL_GRID_GENERATOR_TYPE_POINT:
     ppg = new Grid_Generator(Grid_Generator::grid_point(lle, dd));
